@@ -121,3 +121,13 @@ Theorem C13_source_parser : forall cfg b m brand model w,
   post (ConnLoop_fn_frameParser (cext cfg) b m w)
        (fun r w' => r = parser_of brand model /\ exists extra, w' = set_vals w (cw_vals w ++ extra)).
 Proof. exact tie_frameParser. Qed.
+
+From TR Require Import proofs.Bridges.
+
+(* ---- the configuration the detector and the frame parsers are given (proofs/TieConf.v, restated in proofs/Bridges.v):
+   validateConfig changes nothing; every thermal-motion key - edge-pixels among them, 0 included - is the file's value
+   when present, else the camera model's default *)
+Theorem C13_source_config_validate_is_empty : BConf.validate_is_empty_stmt.
+Proof. exact BConf.validate_is_empty. Qed.
+Theorem C13_source_config_motion_keys : BConf.motion_keys_stmt.
+Proof. exact BConf.motion_keys. Qed.
